@@ -1,6 +1,7 @@
 //! C03 sessions: (a) arbitrary and mutated strings into every parser, (b) every zone of the bundled database probed through
 //! the public ZonedDateTime API at extreme and transition-adjacent instants. The trace spec only asks that each outcome is in
-//! the alphabet {ok, type, range, syntax, generic} - never panic / assert / timeout.
+//! the alphabet {ok, type, range, syntax, generic} - never panic / assert / timeout. (c) synthetic TZif data: `Tzdb.define` of a
+//! seeded description, then `Tzdb.offset` / `Tzdb.local` queries on it.
 use super::Tracer;
 use crate::gen::*;
 use crate::js::big;
@@ -59,6 +60,7 @@ pub fn drive(t: &mut Tracer, r: &mut Rng, n: usize) {
     let labelled: Vec<(&str, i128)> = vec![("min", -MAX_INSTANT), ("max", MAX_INSTANT), ("year-1", -62_135_596_800_000_000_000), ("lmt-1883", -2_717_650_800_000_000_000), ("pre-1970", -1_000_000_000_123_456_789),
         ("epoch", 0), ("2021-dst", 1_615_705_200_000_000_000), ("2021-dst-1ns", 1_615_705_199_999_999_999), ("2040", 2_208_988_800_000_000_000), ("9999", 253_402_300_799_000_000_000)];
     let mut zi = 0usize;
+    let mut syn = 0usize;
     while t.n < n {
         if r.chance(2, 3) {
             // valid seeds as they are, seeds with one edit, heavier damage, and arbitrary strings; every string goes to a random parser
@@ -70,6 +72,16 @@ pub fn drive(t: &mut Tracer, r: &mut Rng, n: usize) {
                 _ => random_string(r),
             };
             t.call(*r.pick(&PARSERS[..]), json!({"chars": chars(&s)}));
+        } else if r.chance(1, 6) {
+            // synthetic TZif data (table and footer shapes no real file has, see rec/c15.rs): written, handed to Tzif::from_bytes,
+            // then offset and wall-clock queries around its table and rule transitions
+            let z = format!("synth/c03-{}", syn); let desc = super::c15::synth_desc(r, syn); syn += 1;
+            t.call("Tzdb.define", json!({"zone": z, "desc": desc}));
+            let tab = t.call("Tzdb.table", json!({"zone": z}));
+            if tab["kind"] == "ok" {
+                let qs = super::c15::queries_for(&z, &tab["val"], r, 6, false);
+                for _ in 0..6 { let q = r.pick(&qs); t.call(q.op, q.args.clone()); }
+            }
         } else if r.chance(1, 3) && !zones.is_empty() {
             // corrupted copies of real TZif files
             let z = &zones[r.range(0, zones.len() as i64 - 1) as usize];
